@@ -55,6 +55,7 @@ class Event:
     count: Rat | None = None
     info: dict = field(default_factory=dict)
     block: int = 0  # id of the statement list (body) the event's statement belongs to
+    stack: tuple = ()  # activation stack ((function, activation id), ...) the event was produced in
 
     def brief(self):
         if self.kind == "flow":
@@ -269,6 +270,8 @@ class StepExecutor:
         self.n_copy = 0
         self.block_ids: dict[int, int] = {}
         self.depth = 0
+        self.stack: list = []
+        self.n_act = 0
 
     def block_id(self, body) -> int:
         return self.block_ids.setdefault(id(body), len(self.block_ids) + 1)
@@ -306,6 +309,7 @@ class StepExecutor:
             for e in evs:
                 if e.block == 0:
                     e.block = bid
+                    e.stack = tuple(self.stack)
             events += evs
         return events
 
@@ -380,7 +384,12 @@ class StepExecutor:
             new_env[p] = bind(a)
         for kw in c.keywords:
             new_env[kw.arg] = bind(kw.value)
-        evs = self.exec_body(callee, callee.body_without_docstring(), new_env)
+        self.n_act += 1
+        self.stack.append((callee.qualname, self.n_act))
+        try:
+            evs = self.exec_body(callee, callee.body_without_docstring(), new_env)
+        finally:
+            self.stack.pop()
         self.depth -= 1
         return evs
 
